@@ -93,6 +93,22 @@ CLAIMED = {
              'tolerance (follows from the shapes up to rounding).',
         technique='path-sensitive abstract interpretation with exact rational normal forms; sibling (twin) agreement',
     ),
+    'C06': dict(
+        category='other',
+        text='All 21 _CP functions (post-preprocessing AST) and the three refractive-index entry points are enumerated path '
+             'by path; a snapshot of one symbolic loop iteration gives the accumulation step, which must equal, as an exact '
+             'normal form, massFractions[i] x elemental(Elements[i], the wrapper\'s own scalar parameters in order, error) '
+             'with both factors from the record of the same constructor call and the same index, on both the formula and the '
+             'NIST branch; zero term => result 0; formula first, NIST second, UNKNOWN_COMPOUND otherwise; prototypes = '
+             'definitions. Refractive index: real/imaginary step and closing formulas, the complex entry point agrees with '
+             '_Re/_Im including the literal, density fallback only for NIST and only when density <= 0, E>0 and density>0 '
+             'established before the sums, elemental failure => 0.',
+        design_ref='DESIGN.md section 2, C06',
+        note='Trusted: clang front end, E1 (loops over a symbolic element count are analysed through one symbolic '
+             'iteration), E2. Assumes a resolved compound has >= 1 element (C15 for NIST; parser exit). Agreement with the '
+             'parser\'s composition is C07. The physical value of the constants KD and 9.8663479e-9 is not decided.',
+        technique='path-sensitive abstract interpretation with loop-iteration snapshots and exact normal forms',
+    ),
 }
 
 NOT_YET = {}
